@@ -852,7 +852,16 @@ func (r *Run) opRead(op *Op) {
 		q.Set("response-content-encoding", "identity")
 		r.probe("read with response header overrides")
 	}
-	resp := r.simple(method, target(op.B, op.Key, q), op)
+	var resp *Resp
+	if op.Status == "since-epoch" {
+		// a conditional read whose condition every stored object meets: it was
+		// modified after 1970, whatever the server still knows about when
+		resp = r.send(&simnet.Request{Method: method, Target: target(op.B, op.Key, q),
+			Headers: [][2]string{{"If-Modified-Since", "Thu, 01 Jan 1970 00:00:01 GMT"}}}, op.Faults, r.frag(op))
+		r.probe("conditional read (If-Modified-Since the epoch)")
+	} else {
+		resp = r.simple(method, target(op.B, op.Key, q), op)
+	}
 	r.noPanic(resp, method+" object")
 	r.logf("  -> %s len=%d", resp.String(), len(resp.Body))
 	if r.faultedOut(resp, "", "") {
